@@ -77,9 +77,13 @@ def analyse(text, want=("rt", "html", "events"), timeout=3):
         try:
             h = impl.to_html(r)
             out["html"] = h
-            out["tree"] = canon.freeze(canon.from_html(h))
         except Exception as ex:  # pylint: disable=broad-except
-            out["html_exc"] = "%s: %s" % (type(ex).__name__, str(ex)[:80])
+            out["html_exc"] = "%s: %s" % (type(ex).__name__, str(ex)[:80])       # the implementation's HTML generator raised
+        else:
+            try:
+                out["tree"] = canon.freeze(canon.from_html(h))
+            except Exception as ex:  # pylint: disable=broad-except
+                out["proj_exc"] = "%s: %s" % (type(ex).__name__, str(ex)[:80])   # the harness could not read the HTML back: no verdict
     if "events" in want:
         out["events"] = token_events(r, text)
     if "tokens" in want:
